@@ -235,6 +235,10 @@ Definition finish (c : cfg) (code : Z) (body : reader) : done :=
            a_callbacks := if c_callback c && eof_seen true then [total] else [];
            a_unmarshal := um |}
     | None =>
+        if s_err s2 then
+          (* an earlier stage failed without leaving a body (fix 42fc3cf): nothing is copied *)
+          {| a_state := s2; a_out := []; a_callbacks := []; a_unmarshal := um |}
+        else
         let '(w, ok) := copy_capped (c_cap c) (s_body s2) in
         {| a_state := {| s_err := s_err s2 || negb ok; s_cache := None; s_body := closed_reader |};
            a_out := w;
